@@ -4,7 +4,7 @@
 From Coq Require Import NArith ZArith List Bool.
 Import ListNotations.
 Require Import UV.Gen.Consts UV.Mcount.Model UV.Mcount.Forest UV.Mcount.PlainStep UV.Mcount.PlainProofs
-  UV.Mcount.Codec UV.Mcount.PlainMore UV.Mcount.Overflow UV.Mcount.Embed UV.Mcount.EmbedOver UV.Mcount.EmbedMore UV.Mcount.Check UV.Mcount.Monotone UV.Mcount.Threads.
+  UV.Mcount.Codec UV.Mcount.PlainMore UV.Mcount.Overflow UV.Mcount.Embed UV.Mcount.EmbedOver UV.Mcount.EmbedMore UV.Mcount.Check UV.Mcount.Monotone UV.Mcount.Threads UV.Mcount.ForkChild.
 Local Open Scope N_scope.
 
 (* Writer and readers agree on the record word: the hand-packed word of record_ret_stack decodes,
@@ -144,3 +144,14 @@ Theorem C02_stream_at_any_instant_any_depth : forall c, no_switch c -> forall f,
   exists g l, emb g f /\ out (fst (exec c p (init, []))) ++ l = flat_map (history 0) g.
 Proof. exact stream_at_any_instant_any_depth. Qed.
 Print Assumptions C02_stream_at_any_instant_any_depth.
+
+(* Fork: for EVERY configuration (filters, triggers, switches), both shapes, any parent state and any continuation,
+   a forked child never writes the ENTRY record of a call entered before the fork (atfork_child_handler marks all
+   inherited frames WRITTEN): every ENTRY in the child's stream carries the time of a call entered after the fork
+   (0 stands for the placeholder frames above --max-stack, which are never real calls). *)
+Theorem C02_child_writes_no_inherited_entry : forall c es s hk,
+  Forall (fun e => e <> ForkChild) es ->
+  Forall (fun r => r_type r = ENTRY -> In (r_time r) (0 :: enter_times es))
+         (out (fst (exec c es (do_fork_child s, hk)))).
+Proof. exact child_writes_no_inherited_entry. Qed.
+Print Assumptions C02_child_writes_no_inherited_entry.
